@@ -404,6 +404,8 @@ def run(ctx: Ctx) -> None:
     from .c14 import rule_wrapper_per_operation
     rule_wrapper_per_operation(ctx)  # the exported body of a local Clifford is the product of *all* its listed gates
     rule_simplify_member(ctx)
+    for rel_, cname_ in hooks.COMPILERS:
+        hooks.rule_qindex(ctx, rel_, cname_, hooks.HOOKS)   # "the same unitary in both backends" includes the same qubit: positions come from q_index
     gatesum.rule_derived_gates(ctx)  # both backends must realise each elementary gate: the stabilizer side's derived gates
     from ..rules import memo as _memo
     _memo.rule_memo_sound(ctx, ['graphiq/circuit/ops.py', 'graphiq/backends/density_matrix/functions.py'])
